@@ -83,8 +83,22 @@ impl CanonStreamMap {
     }
 
     pub(crate) fn as_jvalue(&self) -> JValue {
-        let json_map: air_interpreter_value::Map<JsonString, JValue> =
-            self.map.iter().map(|(k, v)| (k.to_key(), v.as_jvalue())).collect();
+        // Keys of different types can have the same JSON representation ("1" and 1). The values are visited
+        // in their canonicalized order, and the first such key wins, so that the result doesn't depend on
+        // the iteration order of the hash map.
+        let mut json_map = air_interpreter_value::Map::<JsonString, JValue>::new();
+        for kvpair_obj in &self.values {
+            let Some(key) = StreamMapKey::from_kvpair_owned(kvpair_obj) else {
+                continue;
+            };
+            let json_key = key.to_key();
+            if json_map.contains_key(&json_key) {
+                continue;
+            }
+            if let Some(canon_stream) = self.map.get(&key) {
+                json_map.insert(json_key, canon_stream.as_jvalue());
+            }
+        }
         json_map.into()
     }
 
